@@ -97,6 +97,19 @@ class _Pruner(ast.NodeTransformer):
 
 
 # ----------------------------------------------------------------------------------------------
+def _body_hash(node):
+    """digest of a function body with docstring dropped and every private name blanked (same definition as tools/gen_known.py)"""
+    n = copy.deepcopy(node)
+    if n.body and isinstance(n.body[0], ast.Expr) and isinstance(n.body[0].value, ast.Constant) and isinstance(n.body[0].value.value, str):
+        n.body = n.body[1:]
+    for x in ast.walk(n):
+        if isinstance(x, ast.Name) and x.id.startswith("_"):
+            x.id = "_"
+        elif isinstance(x, ast.Attribute) and x.attr.startswith("_"):
+            x.attr = "_"
+    return hashlib.sha256("".join(ast.dump(b) for b in n.body).encode()).hexdigest()[:16]
+
+
 def _expand_kw_splats(tree):
     """`f(x, **h(a))` where h is a function of the same module whose body is `return {"k1": e1, "k2": e2}` (string keys, parameters used as
     plain names) reads `f(x, k1=e1[a], k2=e2[a])`: a keyword bundle factored into a helper is the keywords it abbreviates"""
@@ -228,6 +241,7 @@ class Model:
         self.funcs = {}
         self.classes = {}
         self.pruned_arms = 0
+        self.renamed = {}
         self._digest = hashlib.sha256()
         self._load()
         self._index()
@@ -255,6 +269,158 @@ class Model:
                 ast.fix_missing_locations(tree)
                 self.pruned_arms += pr.pruned
                 self.mods[name] = Mod(name, rel, src, tree, raw, pr.pruned)
+        self._unrename()
+
+    def _unrename(self):
+        """A private helper (function or method, single leading underscore) that an edit has *renamed* is presented under the name the rules were
+        written against: a pinned private name that is no longer defined in its module / class is matched with a definition there that the
+        pinned tree did not have, with the same parameter list and the most similar set of callee names (unique best match required).  The
+        renaming is undone in the model's syntax trees (definition and every reference in the package), so that rules, reference texts and
+        term names see one spelling.  Public names are API and are never matched."""
+        path = os.path.join(os.path.dirname(os.path.abspath(__file__)), "known_sigs.txt")
+        try:
+            rows = [ln.rstrip("\n").split("|") for ln in open(path) if ln.strip() and not ln.startswith("#")]
+        except OSError:
+            return
+        pinned = {}
+        for r in rows:
+            if len(r) != 4:
+                continue
+            q, ps, cs, bh = r
+            cont, name = q.rsplit(".", 1)
+            pinned.setdefault(cont, {})[name] = (ps.split(",") if ps else [], set(cs.split(",")) if cs else set(), bh)
+        current = {}
+
+        def callees(node):
+            out = set()
+            for n in ast.walk(node):
+                if isinstance(n, ast.Call):
+                    f = n.func
+                    out.add(f.id if isinstance(f, ast.Name) else (f.attr if isinstance(f, ast.Attribute) else "?"))
+            return out
+        for mname, m in self.mods.items():
+            for n in m.tree.body:
+                if isinstance(n, ast.FunctionDef):
+                    current.setdefault(mname, {})[n.name] = n
+                elif isinstance(n, ast.ClassDef):
+                    for x in n.body:
+                        if isinstance(x, ast.FunctionDef):
+                            current.setdefault(mname + "." + n.name, {})[x.name] = x
+        all_defined = {nm for d in current.values() for nm in d}
+        private = lambda nm: nm.startswith("_") and not nm.startswith("__")
+        renames = {}
+        for cont, names in pinned.items():
+            cur = current.get(cont, {})
+            missing = [nm for nm in names if nm not in cur and private(nm)]
+            unknown = [nm for nm in cur if nm not in names and private(nm)]
+            if not missing or not unknown:
+                continue
+            scored = []
+            import difflib
+            for mnm in missing:
+                ps, cs, bh = names[mnm]
+                for u in unknown:
+                    node = cur[u]
+                    ups = [a.arg for a in node.args.posonlyargs + node.args.args + node.args.kwonlyargs]
+                    if ups != ps:
+                        continue
+                    ucs = callees(node)
+                    # an unchanged body (private names blanked) is the best evidence of a pure rename; otherwise similarity of the callee sets,
+                    # then of the names themselves (a rename usually keeps a recognisable stem), tells siblings (fftn / ifftn) apart
+                    inter, union = len(cs & ucs), len(cs | ucs) or 1
+                    same_body = 1.0 if _body_hash(node) == bh else 0.0
+                    scored.append((same_body * 10 + inter / union + 0.5 * difflib.SequenceMatcher(None, mnm, u).ratio(), mnm, u))
+            scored.sort(reverse=True)
+            used_m, used_u = set(), set()
+            for sc, mnm, u in scored:
+                if mnm in used_m or u in used_u:
+                    continue
+                rivals = [x for x in scored if (x[1] == mnm or x[2] == u) and (x[1], x[2]) != (mnm, u) and x[1] not in used_m and x[2] not in used_u]
+                if any(abs(x[0] - sc) < 1e-9 for x in rivals):
+                    continue      # ambiguous: leave both unmatched (the vanished anchor is then reported as such)
+                if sc < 0.6 and rivals:
+                    continue
+                used_m.add(mnm)
+                used_u.add(u)
+                if u in renames and renames[u] != mnm:
+                    renames[u] = None
+                elif mnm not in all_defined:
+                    renames[u] = mnm
+        renames = {u: mnm for u, mnm in renames.items() if mnm is not None}
+        self._unrename_params(pinned, current, renames, private)
+        if not renames:
+            return
+        self.renamed = dict(renames)
+
+        class R(ast.NodeTransformer):
+            def visit_FunctionDef(self, node):
+                self.generic_visit(node)
+                if node.name in renames:
+                    node.name = renames[node.name]
+                return node
+
+            def visit_Name(self, node):
+                if node.id in renames:
+                    node.id = renames[node.id]
+                return node
+
+            def visit_Attribute(self, node):
+                self.generic_visit(node)
+                if node.attr in renames:
+                    node.attr = renames[node.attr]
+                return node
+        for m in self.mods.values():
+            m.tree = R().visit(m.tree)
+
+    def _unrename_params(self, pinned, current, renames, private):
+        """parameters of a private helper that an edit has renamed (same count, same order) get the names the rules know: inside the helper and in
+        keyword arguments at its call sites (callee recognised by its short name).  Public functions are API: their parameter names are not touched."""
+        todo = {}     # short function name (as currently spelled) -> {new param: old param}
+        for cont, names in pinned.items():
+            cur = current.get(cont, {})
+            back = {v: k for k, v in renames.items()}
+            for nm, (ps, cs, bh) in names.items():
+                if not private(nm):
+                    continue
+                cur_name = nm if nm in cur else back.get(nm)
+                node = cur.get(cur_name) if cur_name else None
+                if node is None or node.args.vararg or node.args.kwarg:
+                    continue
+                ups = [a.arg for a in node.args.posonlyargs + node.args.args + node.args.kwonlyargs]
+                if ups == ps or len(ups) != len(ps):
+                    continue
+                mp = {u: p_ for u, p_ in zip(ups, ps) if u != p_}
+                if set(mp.values()) & (set(ups) - set(mp)):
+                    continue      # an old name is still in use for another parameter: not a plain renaming
+                local_stores = {x.id for x in ast.walk(node) if isinstance(x, ast.Name) and isinstance(x.ctx, ast.Store)}
+                if set(mp.values()) & local_stores:
+                    continue      # the old name is a local of the new body
+                for a in node.args.posonlyargs + node.args.args + node.args.kwonlyargs:
+                    a.arg = mp.get(a.arg, a.arg)
+                for x in ast.walk(node):
+                    if isinstance(x, ast.Name) and x.id in mp:
+                        x.id = mp[x.id]
+                if cur_name in todo and todo[cur_name] != mp:
+                    todo[cur_name] = None
+                else:
+                    todo.setdefault(cur_name, mp)
+        todo = {k: v for k, v in todo.items() if v}
+        if not todo:
+            return
+        self.renamed_params = todo
+
+        class K(ast.NodeTransformer):
+            def visit_Call(self, node):
+                self.generic_visit(node)
+                f = node.func
+                nm = f.id if isinstance(f, ast.Name) else (f.attr if isinstance(f, ast.Attribute) else None)
+                if nm in todo:
+                    for k in node.keywords:
+                        if k.arg in todo[nm]:
+                            k.arg = todo[nm][k.arg]
+                return node
+        for m in self.mods.values():
+            m.tree = K().visit(m.tree)
 
     @property
     def digest(self):
